@@ -336,3 +336,16 @@ def enc_case(op: str, args: list) -> str:
         vals = [proto.Opaque(99) if (k in optional and params.get(k, 0) is None) else params.get(k, defaults.get(k, proto.Opaque(99))) for k in order]
         return f"build {which} {clock} " + " ".join(proto.enc(v) for v in vals)
     return " ".join([op] + [proto.enc(x) for x in args])
+
+
+def library_env_vars() -> set:
+    """names of the environment variables the library's source mentions (os.environ[...], os.environ.get(...), os.getenv(...)): they are part of
+    the configuration space the properties quantify over, so some runs switch all of them on"""
+    import re
+    names = set()
+    pkg_dir = os.path.dirname(common.__file__)
+    for fn in sorted(os.listdir(pkg_dir)):
+        if fn.endswith(".py"):
+            src = open(os.path.join(pkg_dir, fn), encoding="utf-8", errors="replace").read()
+            names |= set(re.findall(r"""(?:environ(?:\.get)?\s*[\[(]|getenv\s*\()\s*["']([A-Za-z_][A-Za-z0-9_]*)["']""", src))
+    return names - {"PATH", "HOME", "GNUPGHOME"}
